@@ -17,7 +17,8 @@ HARNESSES = ()
 THEOREMS = ["C03_stamp_sender", "C03_stamp_clean", "C03_stamp_intact", "C03_forged_irrelevant",
             "C03_sender_partial", "C03_every_delivery", "C03_sender_refuted", "C03_placeholder_is_no_name",
             "C03_unique", "C03_names_exact", "C03_name_form_injective", "C03_no_fault_below_bound", "C03_second_hello_refused",
-            "C03_mint_matches_c", "C03_constants_match_c",
+            "C03_release_only_live", "C03_field_position_independent", "C03_relay_wellformed", "C03_relay_bytes", "C03_relay_bytes_unique",
+            "C03_minted_name_valid", "C03_mint_matches_c", "C03_constants_match_c", "C03_ex_hold_release", "C03_ex_hold_fail", "C03_ex_relay_bytes",
             "C03_ex_hypotheses_satisfiable", "C03_ex_names", "C03_ex_forwarded", "C03_ex_placeholder", "C03_ex_f13"]
 
 
@@ -37,7 +38,7 @@ def load_corpus():
     for p in sorted(glob.glob(os.path.join(vlib.VERIF, "corpus", "C03", "*.json"))):
         d = json.load(open(p))
         d = d.get("replay", d)
-        out.append(("corpus:" + os.path.basename(p)[:-5], int(d["maxc"]), list(d["events"])))
+        out.append(("corpus:" + os.path.basename(p)[:-5], int(d["maxc"]), list(d["events"]), [list(a) for a in d.get("acts", [])]))
     return out
 
 
@@ -45,14 +46,14 @@ def gen_cases(tier, rnd):
     cases = load_corpus() + sg.scenarios()
     n = 1100 if tier == "quick" else 16000
     for i in range(n):
-        maxc, ev = sg.gen_history(rnd, rnd.randrange(6, 42))
-        cases.append(("gen%d" % i, maxc, ev))
+        maxc, ev, acts = sg.gen_history(rnd, rnd.randrange(6, 42))
+        cases.append(("gen%d" % i, maxc, ev, acts))
     return cases
 
 
 def run_impl(daemon, cases):
     nproc = min(16, os.cpu_count() or 4)
-    chunks = [(daemon, [(i, c[1], c[2]) for i, c in list(enumerate(cases))[j::nproc * 4]]) for j in range(nproc * 4)]
+    chunks = [(daemon, [(i, c[1], c[2], c[3]) for i, c in list(enumerate(cases))[j::nproc * 4]]) for j in range(nproc * 4)]
     impl = [None] * len(cases)
     with concurrent.futures.ProcessPoolExecutor(max_workers=nproc) as ex:
         for res in ex.map(sr.run_chunk, [c for c in chunks if c[1]]):
@@ -115,11 +116,11 @@ def run(ctx):
     if ctx.get("replay"):
         d = json.load(open(ctx["replay"]))
         d = d.get("replay", d)
-        cases = [(d.get("name", "replay"), int(d["maxc"]), list(d["events"]))]
+        cases = [(d.get("name", "replay"), int(d["maxc"]), list(d["events"]), [list(a) for a in d.get("acts", [])])]
     else:
         cases = gen_cases(tier, rnd)
     n_mint = check_mint(ctx, rep)
-    lines = ["hist %d %s" % (m, " ".join(e)) for _, m, e in cases]
+    lines = ["hist %d %s %s" % (m, ",".join(a[0].encode().hex() for a in acts) or "-", " ".join(e)) for _, m, e, acts in cases]
     mres, crashes = vlib.run_lines(ctx["info"]["model_stamp"], lines)
     for line, err in crashes:
         rep.violation("extracted model crashed: " + err[-300:], {"line": line[:2000], "names": "ml/stamp"}, found_input=False)
@@ -128,9 +129,9 @@ def run(ctx):
     dist = {"histories_with_monitor": 0, "histories_hitting_connection_limit": 0, "events": 0, "sends": 0, "connects": 0, "disconnects": 0}
     samples = []
     for case, tokline, im in zip(cases, mres, impl):
-        name, maxc, events = case
+        name, maxc, events, acts = case
         toks = tokline.split()
-        replay = {"name": name, "maxc": maxc, "events": events,
+        replay = {"name": name, "maxc": maxc, "events": events, "acts": acts,
                   "how": "python3 tools/check.py C03 --replay <this file>   (events: C.<c> connect, D.<c> disconnect, S.<c>.<hex of one message>; "
                          "fresh dbus-daemon with max_completed_connections=maxc, one raw socket per client)"}
         out, probe, (rc, err), runerr = im
@@ -180,6 +181,8 @@ def run(ctx):
                 "BecomeMonitor connection that sees every message the bus handles): connect, Hello (proper; without INTERFACE; other path; with arguments; wrong "
                 "interface; without DESTINATION; as a signal; repeated; after LimitsExceeded), disconnect and reconnect with reused client ids, RequestName (well-known "
                 "names and forged ':N.M' names), AddMatch (incl. eavesdrop), driver queries, and messages of all four types, unicast to live / dead unique names and "
+                "activatable names (55%% of the histories have service files: messages are kept, then released by a RequestName or bounced by a failing start, "
+                "with writers leaving and ids being reused in between), "
                 "well-known names, to the driver, and without DESTINATION, before and after Hello, both byte orders, flags incl. undefined bits; 60%% of the decorated "
                 "messages carry a forged SENDER (other clients' names, org.freedesktop.DBus, :not.active.yet, ...) at a random position of the field array, 0-3 unknown "
                 "field codes from {11,12,13,64,127,128,200,254,255,random} with random variant payloads of 22 type shapes, 35%% a CONTAINER_INSTANCE field; plus "
@@ -194,7 +197,8 @@ def run(ctx):
                        "serial, not error texts) for bus-originated ones, per-receiver order.  ORACLE (independent decoder, implementation behaviour only): sender "
                        "= the name the bus itself told the writer in its Hello reply (or :not.active.yet at a monitor), no unknown / duplicated / "
                        "CONTAINER_INSTANCE field, every other field, flags, serial, signature and body as written; names begin with ':', pairwise distinct over the "
-                       "whole history, at most one per connection, consistent with NameAcquired / NameOwnerChanged / ListNames / GetNameOwner.  ONLY EXPLORED, "
+                       "whole history, at most one per connection, consistent with NameAcquired / NameOwnerChanged / ListNames / GetNameOwner.  BYTE LEVEL: C03_relay_bytes proves that the model's relayed bytes decode to exactly "
+                       "the received message with SENDER replaced and the untrusted-only fields removed; the run shows the daemon writes those very bytes.  ONLY EXPLORED, "
                        "not proved: counters near INT_MAX on the real daemon (the lifted function is run there instead), out-of-memory paths, the containers "
                        "feature (compiled out), match-rule / policy decisions (parameters of the model).",
     })
